@@ -52,6 +52,11 @@ typedef struct ldb_reader_s {
   /* Offset of the last record returned by read_record. */
   uint64_t last_offset;
 
+  /* Offset of the first byte after the last record returned by
+     read_record. Equal to the file size iff the file ends with
+     a complete record (nothing torn or dropped at the tail). */
+  uint64_t last_end;
+
   /* Offset of the first location past the end of buffer. */
   uint64_t end_offset;
 
